@@ -198,8 +198,9 @@ class WriterExtractor:
             v = env[e.id][1]
             if v is None or isinstance(v, TagConst):
                 return v
+        cenv = {k: v[1] for k, v in (env or {}).items() if v and v[0] == "const"}
         try:
-            v = self.folder.fold(e, fi.module, {k: v[1] for k, v in ()}, cls_q)
+            v = self.folder.fold(e, fi.module, cenv, cls_q)
         except Unfoldable as ex:
             # ASN1Tag(<class>, <number>, <something computed at run time>): the identifier octet depends on the value being
             # written - recorded as a finding of its own (C01 W15 / C03 B11), extraction goes on with the foldable parts
@@ -223,8 +224,7 @@ class WriterExtractor:
         conv = "identity"
         cur = e
         if isinstance(cur, ast.Call) and isinstance(cur.func, ast.Attribute) and cur.func.attr == "encode":
-            enc = norm(cur.args[0]) if cur.args else "utf-8"
-            conv = f"str({enc.split('.')[-1]})"
+            conv = enc_conv(cur, fi.node)
             cur = cur.func.value
         if isinstance(cur, ast.Attribute) and cur.attr == "value" and self._is_enum_field(cur.value, env, fi):
             conv = "enum"
@@ -328,6 +328,11 @@ class WriterExtractor:
             for real, sh in shadows.values():
                 if sh:
                     real.append(WNode("opt", cond=(cd[0], cd[1].path if cd[1].kind in ("field", "elem") else cd[1].text), src=cd[1], children=sh, line=s.lineno, func=fi.qualname))
+            # a local that was None (or unbound) before and is derived from a field under `if <field> is not None:` stands for that
+            # field afterwards (it is None exactly when the field is)
+            for k2, v2 in env2.items():
+                if v2 and v2[0] == "src" and (k2 not in env or env[k2] == ("const", None)) and k2 not in shadows:
+                    env[k2] = v2
             return r
         if isinstance(s, ast.For):
             if not isinstance(s.target, ast.Name):
@@ -364,6 +369,10 @@ class WriterExtractor:
                     return w[1]
             if isinstance(inner, ast.Name) and env.get(inner.id, ("",))[0] == "writerdata":
                 return env[inner.id][1]
+            if isinstance(inner, ast.Call) and isinstance(inner.func, ast.Name):
+                r = self._helper_call(inner, env, fi, cls_q, "<ret>")
+                if r is not None and r[0] == "grammar":
+                    return r[1]
             src = self._src(v, env, fi)
             return [WNode("value", src=src, line=s.lineno, func=fi.qualname)]
         if isinstance(s, ast.Pass):
@@ -434,10 +443,14 @@ class WriterExtractor:
         caller's writer / field sources (a pack loop moved out of a method reads the same)."""
         pairs = [(i, None, a) for i, a in enumerate(c.args)] + [(None, k.arg, k.value) for k in c.keywords]
         wnames = [a for _, _, a in pairs if isinstance(a, ast.Name) and env.get(a.id, ("",))[0] == "writer"]
-        if not wnames:
-            return None
         q = self.m.resolve_name(fi.module, c.func.id)
         hf = self.m.functions.get(q) if q else None
+        if not wnames:
+            # a helper that builds its own root writer and returns the encoded value (an extracted get_value body)
+            own_writer = hf is not None and hf.cls is None and not isinstance(hf.node, ast.Lambda) and \
+                any(isinstance(x, ast.Call) and self.m.resolve_name(hf.module, norm(x.func)) == f"{ASN1}.ASN1Writer" for x in ast.walk(hf.node) if isinstance(x, ast.Call) and isinstance(x.func, (ast.Name, ast.Attribute)))
+            if not own_writer:
+                return None
         if hf is None or hf.cls is not None or isinstance(hf.node, ast.Lambda):
             raise AnalysisError(f"{fi.qualname}:{c.lineno}: a writer is handed to `{norm(c.func)}`, which is not a package function")
         if getattr(self, "_helper_depth", 0) > 4:
@@ -622,6 +635,8 @@ class ReaderResult:
     inlines: Dict[str, "ReaderResult"] = field(default_factory=dict)     # caller local -> result of an inlined helper reader
     encaps_of: Dict[str, str] = field(default_factory=dict)             # reader local -> value it was constructed over
     appended: Dict[str, str] = field(default_factory=dict)              # local -> list local it was appended to
+    structs: Dict[str, Dict[str, str]] = field(default_factory=dict)    # local bound to Cls(f=v, ...) -> {v: f}
+    flat_body: Optional[List[ast.stmt]] = None                          # the decoder's body after helper inlining
 
     def field_path(self, node: "RNode") -> Optional[str]:
         """dataclass field (dotted through inlined helpers) that the value read by `node` ends up in."""
@@ -629,9 +644,22 @@ class ReaderResult:
             v = n.var
             if n.appended_to:
                 v = n.appended_to
-            if v in res.field_of_var:
-                return res.field_of_var[v]
-            return None
+            def resolve(v: str, depth: int = 0) -> Optional[str]:
+                seen = set()
+                while v not in res.field_of_var and v in res.appended and v not in seen:
+                    seen.add(v)
+                    v = res.appended[v]          # a list whose elements are handed on to another list / a local copied into another
+                if v in res.field_of_var:
+                    return res.field_of_var[v]
+                if depth < 4:
+                    # a local that is an argument of `x = Cls(f=v, ...)`: the field f of wherever x ends up
+                    for sv, mp in res.structs.items():
+                        if v in mp:
+                            outer = resolve(sv, depth + 1)
+                            if outer is not None:
+                                return mp[v] if outer in ("<self>", "") else f"{outer}.{mp[v]}"
+                return None
+            return resolve(v)
         if node.func == self.func:
             return own(self, node)
         for var, sub in self.inlines.items():
@@ -693,6 +721,20 @@ def region_not(a: List[Box]) -> List[Box]:
     for x in a:
         out = region_meet(out, x.complement())
     return out
+
+
+def enc_conv(call: ast.Call, fn_node: Optional[ast.AST] = None) -> str:
+    """`str(<encoding>)` for an x.encode(<enc>) / x.decode(<enc>) call, with a local that merely holds `<opts>.<attr>` (a hoisted
+    `encoding = options.string_encoding`) resolved to that attribute."""
+    a = call.args[0] if call.args else next((k.value for k in call.keywords if k.arg == "encoding"), None)
+    if a is None:
+        return "str(utf-8)"
+    if isinstance(a, ast.Name) and fn_node is not None:
+        binds = [x.value for x in ast.walk(fn_node) if isinstance(x, (ast.Assign, ast.AnnAssign)) and x.value is not None and
+                 any(isinstance(t, ast.Name) and t.id == a.id for t in (x.targets if isinstance(x, ast.Assign) else [x.target]))]
+        if len(binds) == 1 and isinstance(binds[0], ast.Attribute):
+            a = binds[0]
+    return f"str({norm(a).split('.')[-1]})"
 
 
 def _value_guards(body: List[ast.stmt]) -> Optional[List[ast.stmt]]:
@@ -838,7 +880,11 @@ class ReaderExtractor:
         st = {"readers": {}, "headers": {}, "res": res, "fi": fi, "cls": cls_q or fi.cls, "lists": {}, "values": {}, "emitted": []}
         if rp is not None:
             st["readers"][rp] = res.nodes
-        self._block(normalise_guards(list(fi.node.body)), st)
+        from .inline import inline_reader_helpers
+        body = inline_reader_helpers(self.m, fi, normalise_guards) if not isinstance(fi.node, ast.Lambda) else list(fi.node.body)
+        body = normalise_guards(body)
+        res.flat_body = body
+        self._block(body, st)
         return res
 
     # ------------------------------------------------------------------ helpers
@@ -1195,8 +1241,7 @@ class ReaderExtractor:
         conv = "identity"
         cur = e
         if isinstance(cur, ast.Call) and isinstance(cur.func, ast.Attribute) and cur.func.attr == "decode":
-            enc = norm(cur.args[0]) if cur.args else "utf-8"
-            conv = f"str({enc.split('.')[-1]})"
+            conv = enc_conv(cur, st["fi"].node)
             cur = cur.func.value
         if isinstance(cur, ast.Call) and isinstance(cur.func, ast.Attribute) and isinstance(cur.func.value, ast.Name) and cur.func.value.id in st["readers"] and \
                 (cur.func.attr in READ_KINDS or cur.func.attr in READ_CONS):
@@ -1224,9 +1269,10 @@ class ReaderExtractor:
                 v = self.folder.fold(tag_e, st["fi"].module, st.get("consts"), st["cls"])
             except Unfoldable as ex:
                 raise AnalysisError(f"{st['fi'].qualname}:{call.lineno}: reader tag `{norm(tag_e)}` does not fold ({ex})")
-            if not isinstance(v, TagConst):
+            if v is not None and not isinstance(v, TagConst):
                 raise AnalysisError(f"{st['fi'].qualname}:{call.lineno}: reader tag folds to {v!r}")
-            return TagSpec("explicit", v)
+            if v is not None:
+                return TagSpec("explicit", v)
         if hdr_e is not None and not (isinstance(hdr_e, ast.Constant) and hdr_e.value is None):
             hv = norm(hdr_e)
             sp = st["headers"].get(hv)
@@ -1272,6 +1318,10 @@ class ReaderExtractor:
             ast.fix_missing_locations(s)
         if isinstance(s, ast.Expr):
             v = s.value
+            if isinstance(v, ast.Call) and isinstance(v.func, ast.Attribute) and v.func.attr == "extend" and isinstance(v.func.value, ast.Name) and len(v.args) == 1 and isinstance(v.args[0], ast.Name):
+                # lst.extend(other_list): what was appended to other_list ends up in lst
+                res.appended[v.args[0].id] = v.func.value.id
+                return
             if isinstance(v, ast.Call) and isinstance(v.func, ast.Attribute) and v.func.attr == "extend" and isinstance(v.func.value, ast.Name) and len(v.args) == 1 and isinstance(v.args[0], ast.Call):
                 # lst.extend(helper(reader, ...)): the helper is inlined; what it returns lands in lst
                 lst = v.func.value.id
@@ -1302,7 +1352,7 @@ class ReaderExtractor:
                     inner = a
                     conv = None
                     if isinstance(inner, ast.Call) and isinstance(inner.func, ast.Attribute) and inner.func.attr == "decode":
-                        conv = f"str({(norm(inner.args[0]) if inner.args else 'utf-8').split('.')[-1]})"
+                        conv = enc_conv(inner, fi.node)
                         inner = inner.func.value
                     if isinstance(inner, ast.Name):
                         res.appended[inner.id] = lst
@@ -1320,6 +1370,13 @@ class ReaderExtractor:
                 return
             if isinstance(tg, ast.Name):
                 name = tg.id
+                # a local constant (a tag, a choice number, an encoding name ...): later folds may use it
+                if not any(isinstance(x, ast.Name) and (x.id in st["readers"] or x.id in st["headers"]) for x in ast.walk(v)):
+                    try:
+                        cv = self.folder.fold(v, fi.module, st.get("consts"), st["cls"])
+                        st.setdefault("consts", {})[name] = cv
+                    except Unfoldable:
+                        (st.get("consts") or {}).pop(name, None)
                 # peek_header
                 if isinstance(v, ast.Call) and isinstance(v.func, ast.Attribute) and v.func.attr == "peek_header":
                     st["headers"].setdefault(name, None)
@@ -1342,7 +1399,7 @@ class ReaderExtractor:
                     return
                 # x = y.decode(enc)
                 if isinstance(v, ast.Call) and isinstance(v.func, ast.Attribute) and v.func.attr == "decode" and isinstance(v.func.value, ast.Name):
-                    res.conv_of_var[name] = f"str({(norm(v.args[0]) if v.args else 'utf-8').split('.')[-1]})"
+                    res.conv_of_var[name] = enc_conv(v, fi.node)
                     st["values"][name] = v.func.value.id
                     # the raw local only exists to be decoded: the value read lives on under the new name
                     src_name = v.func.value.id
@@ -1354,12 +1411,35 @@ class ReaderExtractor:
                                     res.defaults[name] = res.defaults[src_name]
                                 break
                     return
+                # x = Cls(f=a, g=b.decode(enc)): a struct local; its arguments become fields of wherever x ends up
+                if isinstance(v, ast.Call) and isinstance(v.func, (ast.Name, ast.Attribute)):
+                    qd = self.m.resolve_name(fi.module, norm(v.func))
+                    if qd in self.m.classes and self.m.classes[qd].is_dataclass:
+                        fields = [f.name for f in self.m.dataclass_fields(qd) if f.init]
+                        mp: Dict[str, str] = {}
+                        for fname, a in list(zip(fields, v.args)) + [(k.arg, k.value) for k in v.keywords if k.arg]:
+                            inner = a
+                            if isinstance(inner, ast.Call) and isinstance(inner.func, ast.Attribute) and inner.func.attr == "decode" and isinstance(inner.func.value, ast.Name):
+                                res.conv_of_var[inner.func.value.id] = enc_conv(inner, fi.node)
+                                inner = inner.func.value
+                            if isinstance(inner, ast.Name):
+                                mp[inner.id] = fname
+                        res.structs[name] = mp
+                        return
                 # nested unpack calls
                 if isinstance(v, ast.Call):
                     self._nested(name, v, st)
                     if name in st["values"] or any(nd.var == name for nd in self._all_nodes(res.nodes)):
                         return
                 if self._note_alias(name, v, st):
+                    return
+                if isinstance(v, ast.Name) and v.id != name and (any(nd.var == v.id or nd.appended_to == v.id for nd in st["emitted"]) or v.id in res.appended or v.id in res.appended.values()):
+                    # x = y where y holds a value that was read (or a list of them): x is another name for it
+                    res.appended[v.id] = name
+                    if v.id in res.conv_of_var and name not in res.conv_of_var:
+                        res.conv_of_var[name] = res.conv_of_var[v.id]
+                    if v.id in res.defaults and name not in res.defaults:
+                        res.defaults[name] = res.defaults[v.id]
                     return
                 (st.get("aliases") or {}).pop(name, None)
                 if name not in res.defaults:
@@ -1375,7 +1455,10 @@ class ReaderExtractor:
             self._if(s, st, None)
             return
         if isinstance(s, ast.For):
-            # choice dispatch loops are summarised by the dispatch rule; nothing to extract
+            # choice dispatch loops are summarised by the dispatch rule; nothing to extract - unless the loop draws its items from
+            # something that consumes a reader (a generator helper): that shape is not modelled and must not be read as "no reads"
+            if any(isinstance(x, ast.Name) and x.id in st["readers"] for x in ast.walk(s.iter)):
+                raise AnalysisError(f"{fi.qualname}:{s.lineno}: a reader is consumed through an iterator (`for ... in {norm(s.iter)[:50]}`): not modelled")
             return
         if isinstance(s, ast.Return):
             res.returns.append(s)
@@ -1389,7 +1472,7 @@ class ReaderExtractor:
                     for fname, a in pairs:
                         inner = a
                         if isinstance(inner, ast.Call) and isinstance(inner.func, ast.Attribute) and inner.func.attr == "decode":
-                            conv = f"str({(norm(inner.args[0]) if inner.args else 'utf-8').split('.')[-1]})"
+                            conv = enc_conv(inner, fi.node)
                             inner = inner.func.value
                             if isinstance(inner, ast.Name):
                                 res.conv_of_var[inner.id] = conv
